@@ -97,8 +97,11 @@ Init == /\ \E t \in StartTensors : acc = t /\ start = t
 Step(op, arg, res, outcome, extra) ==
   hist' = Append(hist, [op |-> op, arg |-> arg, outcome |-> outcome, result |-> res, extra |-> extra])
 
+\* (operations the library does not define on nested lists -- sub, mul, hadamard, mean -- are outside the property's
+\*  quantifier and are not generated for them)
 Binary(op, y) ==
   /\ ~final /\ Len(hist) < Depth /\ UNCHANGED <<start, final>>
+  /\ acc.rank = 0 => op = "add"
   /\ IF Defined(op, acc, y)
        THEN /\ acc' = Apply2(op, acc, y)
             /\ Step(op, y, acc', "ok", 0)
@@ -108,6 +111,7 @@ Binary(op, y) ==
 \* hadamard(other, scalar): a * b * scalar.
 Hadamard(y, k) ==
   /\ ~final /\ Len(hist) < Depth /\ UNCHANGED <<start, final>>
+  /\ acc.rank # 0
   /\ IF Defined("hadamard", acc, y)
        THEN /\ acc' = [rank |-> acc.rank, data |-> MapR(LAMBDA a, b : a * b * k, acc.rank, acc.data, y.data)]
             /\ Step("hadamard", y, acc', "ok", k)
@@ -122,6 +126,7 @@ DivScalar(s) ==
 \* mean_inplace(<<y1..yk>>): terminal; refused when a shape differs or the rank is unsupported.
 Mean(ys) ==
   /\ ~final /\ UNCHANGED <<start, acc>> /\ final' = TRUE
+  /\ acc.rank # 0
   /\ IF \A j \in 1..Len(ys) : Defined("mean", acc, ys[j])
        THEN Step("mean", ys, MeanOf(acc, ys), "ok", Len(ys))
        ELSE Step("mean", ys, acc, "panic", Len(ys))
@@ -135,6 +140,7 @@ MeanOperands(x) ==
 \* clamp(lo, hi): every element limited to the interval (ranks 1..4; terminal only to bound the search).
 ClampOp(lo, hi) ==
   /\ ~final /\ UNCHANGED <<start, acc>> /\ final' = TRUE
+  /\ acc.rank # 0
   /\ IF acc.rank \in 1..4
        THEN Step("clamp", acc, [rank |-> acc.rank, data |-> UnR(LAMBDA a : Clamp(a, lo, hi), acc.rank, acc.data)], "ok", <<lo, hi>>)
        ELSE Step("clamp", acc, acc, "panic", <<lo, hi>>)
@@ -142,6 +148,7 @@ ClampOp(lo, hi) ==
 \* transpose (matrices), dot (matrix x vector), product (outer product of two vectors).
 TransposeOp ==
   /\ ~final /\ UNCHANGED <<start, acc>> /\ final' = TRUE
+  /\ acc.rank = 2
   /\ IF acc.rank = 2 THEN Step("transpose", acc, [rank |-> 2, data |-> Transpose(acc.data)], "ok", 0)
                      ELSE Step("transpose", acc, acc, "panic", 0)
 
